@@ -222,9 +222,16 @@ class PtTempoBackend:
                 self._mps will be a contraction of A, B, n
                 self._mpo will be one element shorter
         """
-        self._step += 1
+        next_step = self._step + 1
 
-        end_phase = bool(self._step > self._num_steps - self._num_infl + 1)
+        end_phase = bool(next_step > self._num_steps - self._num_infl + 1)
+
+        # evaluate the (user supplied) influence before anything is changed,
+        # such that a failure leaves the step counter and network untouched
+        infl = None
+        if not end_phase and self._dkmax is not None:
+            infl = self._influence(int(0 - next_step))
+        self._step = next_step
 
         if end_phase:
             self._mpo, _ = na.split(self._mpo,
@@ -236,8 +243,6 @@ class PtTempoBackend:
                 self._mps.apply_vector(np.array([1.0]), left=False)
         else:
             if self._dkmax is not None:
-                dk = int(0 - self._step)
-                infl = self._influence(dk)
                 if infl is not None:
                     infl_mpo = util.add_singleton(infl, 1)
                     infl_mpo = util.add_singleton(infl_mpo, 3)
